@@ -724,6 +724,7 @@ func genC07(out *Out, r *Rng, tier string, n int, shard int) {
 	}
 	for i := 0; i < 2*n; i++ {
 		emitForgedDocumentLists(out, r)
+		emitBJJDocShapes(out, r)
 	}
 }
 
